@@ -357,6 +357,16 @@ func c14Check(c statCase) (v vcase.Verdict) {
 					nbaseline++
 					cmp := assume.Compare(base.smp, st.smp)
 					want = append(want, cmp.FormatDelta(base.sum.Center, st.sum.Center), cmp.String())
+					// independent of benchmath: the sample sizes shown are those of the two expected samples
+					nb, nc := len(tb.cells[[2]string{key[0], baseCanon}].vals), len(cell.vals)
+					wantN := fmt.Sprintf("n=%d+%d", nb, nc)
+					if nb == nc {
+						wantN = fmt.Sprintf("n=%d", nb)
+					}
+					if len(gc) == 4 && !strings.HasSuffix(gc[3], wantN) {
+						fail("table %s: cell (row %q, column %q) reports %q, the baseline sample has %d values and this one %d", k, tb.rows[key[0]].Label(), tb.cols[key[1]].Vals, gc[3], nb, nc)
+						return
+					}
 					for _, w := range cmp.Warnings {
 						wantWarn = append(wantWarn, w.Error())
 					}
